@@ -4,7 +4,7 @@ import json, os, subprocess, tempfile
 import vlib, minijs as M
 from vlib import log
 
-UNDEF, NAN, PINF, NINF = 9001, 9002, 9003, 9004
+UNDEF, NAN, PINF, NINF, NZERO = 9001, 9002, 9003, 9004, 9005
 ENAN, EUNDEF = -1000, -1001
 QUICK_ARGS = "ArgsQuick"      # defined in JSLib.tla (a .cfg file cannot hold negative numbers)
 FULL_ARGS = "ArgsFull"
@@ -15,6 +15,7 @@ def js_arg(a):
     if a == NAN: return "NaN"
     if a == PINF: return "Infinity"
     if a == NINF: return "-Infinity"
+    if a == NZERO: return "-0"
     return ("%d" % (a // 2)) if a % 2 == 0 else ("%s%d.5" % ("-" if a < 0 else "", abs(a) // 2))
 
 
@@ -29,6 +30,8 @@ def js_str(cs):
 def js_call(c):
     """the JavaScript expression of one case; array cases that mutate report [result, receiver]"""
     m = c["m"]; a = c["args"]
+    if m.startswith("M."):
+        return "Math.%s(%s)" % (m[2:], ", ".join(js_arg(x) for x in a))
     if m.startswith("s."):
         name = m[2:]; recv = js_str(c["recv"])
         if name in ("indexOf", "lastIndexOf", "includes", "startsWith", "endsWith", "split"):
